@@ -161,3 +161,33 @@ def run_cases(fn, cases, procs=None):
         return [_worker((fn, c)) for c in cases]
     with multiprocessing.Pool(procs) as pool:
         return pool.map(_worker, [(fn, c) for c in cases], chunksize=1)
+
+# ---------------------------------------------------------------------------
+# C front-end
+
+_LL = {}
+
+def get_llvm(defs=('-D__ADX__',), opt='-O0'):
+    """compile /repo's C units to LLVM IR (cached by content hash) and parse them"""
+    from . import llvm, cstubs
+    key = (tuple(defs), opt)
+    if key in _LL:
+        return _LL[key]
+    fp = repo_fingerprint()
+    tag = hashlib.md5((' '.join(defs) + opt).encode()).hexdigest()[:6]
+    d = os.path.join(CACHE, 'll_%s_%s' % (fp, tag))
+    paths = [os.path.join(d, u + '.ll') for u in llvm.UNITS]
+    if not all(os.path.exists(p) for p in paths):
+        for old in glob.glob(os.path.join(CACHE, 'll_*_%s' % tag)):
+            shutil.rmtree(old, ignore_errors=True)
+        tmp = d + '.tmp%d' % os.getpid()
+        llvm.compile_ir(REPO, tmp, defs, opt)
+        try:
+            os.rename(tmp, d)
+        except OSError:
+            shutil.rmtree(tmp, ignore_errors=True)
+    mod = llvm.parse_module(paths)
+    L = llvm.LLVM(mod)
+    cstubs.install(L)
+    _LL[key] = L
+    return L
